@@ -44,8 +44,17 @@ class TransactionState(Enum):
             return source == cls.IN_TRANSACTION
         elif target == cls.ABORTING_TRANSACTION:
             return source in [cls.IN_TRANSACTION, cls.ABORTABLE_ERROR]
+        elif target == cls.ABORTABLE_ERROR:
+            # A fatal error is final: nothing, not even a late abortable error
+            # reported by an orphaned request handler, may leave FATAL_ERROR.
+            return source in [
+                cls.IN_TRANSACTION,
+                cls.COMMITTING_TRANSACTION,
+                cls.ABORTING_TRANSACTION,
+                cls.ABORTABLE_ERROR,
+            ]
         else:
-            return target in [cls.ABORTABLE_ERROR, cls.FATAL_ERROR]
+            return target == cls.FATAL_ERROR
 
 
 class TransactionManager:
